@@ -51,6 +51,14 @@ func c10Entries(thorough bool) []c10Entry {
 
 var c10IDs = []string{c10A, c10B, string(ap.PublicNS)}
 
+// c10ID names identity i: the three fixed ones, then as many further addressees as a long list needs.
+func c10ID(i int) string {
+	if i < len(c10IDs) {
+		return c10IDs[i]
+	}
+	return fmt.Sprintf("http://example.com/n/%d", i)
+}
+
 // c10Slots in scan order; "actor" only exists for intransitive activities and questions.
 var c10ListSlots = []string{"To", "CC", "Bto", "BCC", "Audience"}
 
@@ -241,14 +249,14 @@ func c10Check(t *engine.T, es []c10Entry, h c10Host, a c10Assign) {
 		// returned list: identity sequence, each an IRI equivalent to the identity
 		ok := len(ret) == len(m.ret)
 		for i := 0; ok && i < len(ret); i++ {
-			if ret[i] == nil || !ret[i].GetLink().Equals(ap.IRI(c10IDs[m.ret[i]]), false) {
+			if ret[i] == nil || !ret[i].GetLink().Equals(ap.IRI(c10ID(m.ret[i])), false) {
 				ok = false
 			}
 		}
 		if !ok {
 			want := make([]string, len(m.ret))
 			for i, id := range m.ret {
-				want[i] = c10IDs[id]
+				want[i] = c10ID(id)
 			}
 			sym := "returned-list"
 			if call == 2 {
@@ -276,7 +284,7 @@ func c10Check(t *engine.T, es []c10Entry, h c10Host, a c10Assign) {
 			}
 		}
 		if h.block && a.object >= 0 {
-			blocked := ap.IRI(c10IDs[es[a.object].id])
+			blocked := ap.IRI(c10ID(es[a.object].id))
 			for _, s := range c10ListSlots {
 				for _, it := range e.FieldByName(s).Interface().(ap.ItemCollection) {
 					if it != nil && it.GetLink().Equals(blocked, false) {
@@ -361,6 +369,61 @@ func c10Run(c *engine.Ctx) {
 			})
 		}
 	}
+	// long lists: N distinct addressees in `to` plus one repeat, at list indices around 64 and 128
+	for _, h := range c10Hosts() {
+		h := h
+		for _, N := range []int{15, 16, 17, 31, 32, 33, 62, 63, 64, 65, 66, 127, 128, 129} {
+			les := append([]c10Entry{}, es...)
+			base := len(les)
+			for i := 0; i < N; i++ {
+				id := 3 + i
+				les = append(les, c10Entry{fmt.Sprintf("n%d", id), id, func() ap.Item { return ap.IRI(c10ID(id)) }})
+			}
+			seq := make([]int, N)
+			for i := range seq {
+				seq[i] = base + i
+			}
+			ins := func(l []int, at, e int) []int {
+				out := append([]int{}, l[:at]...)
+				out = append(out, e)
+				return append(out, l[at:]...)
+			}
+			type lc struct {
+				name string
+				a    c10Assign
+			}
+			var lcs []lc
+			mkA := func(to, cc, bcc []int) c10Assign {
+				a := c10Assign{actor: -1, object: -1}
+				a.lists[0], a.lists[1], a.lists[3] = to, cc, bcc
+				return a
+			}
+			lcs = append(lcs,
+				lc{"first repeated at the end", mkA(ins(seq, N, seq[0]), nil, nil)},
+				lc{"last repeated at the end", mkA(ins(seq, N, seq[N-1]), nil, nil)},
+				lc{"middle repeated at the end", mkA(ins(seq, N, seq[N/2]), nil, nil)},
+				lc{"first repeated at index 1", mkA(ins(seq, 1, seq[0]), nil, nil)},
+				lc{"last repeated as object at the end", mkA(ins(seq, N, 4), []int{seq[N-1]}, nil)},
+				lc{"cc repeats the last of to", mkA(seq, []int{seq[N-1], 0}, nil)},
+				lc{"bcc repeats to entirely", mkA(seq, nil, seq)},
+				lc{"no repeat", mkA(seq, []int{0}, nil)},
+			)
+			if h.block {
+				for i := range lcs {
+					lcs[i].a.object = 0
+				}
+			}
+			for _, k := range lcs {
+				k := k
+				c.Do("C10|"+h.name, func() string {
+					return fmt.Sprintf("%s: to = %d distinct addressees, %s ; Recipients() twice", h.name, N, k.name)
+				}, func(t *engine.T) {
+					t.Distinct(true)
+					c10Check(t, les, h, k.a)
+				})
+			}
+		}
+	}
 	// ItemCollection.Recipients over two member objects with at most 2 entries each (to / cc / bcc only)
 	small := []int{0, 1, 2, 3}
 	if !c.Quick() {
@@ -411,7 +474,7 @@ func c10Run(c *engine.Ctx) {
 				}
 				ok := len(ret) == len(want)
 				for i := 0; ok && i < len(ret); i++ {
-					if ret[i] == nil || !ret[i].GetLink().Equals(ap.IRI(c10IDs[want[i]]), false) {
+					if ret[i] == nil || !ret[i].GetLink().Equals(ap.IRI(c10ID(want[i])), false) {
 						ok = false
 					}
 				}
